@@ -102,6 +102,12 @@ CHECKS = {
     technique="TLA+ spec Corrupt (acceptance function over EmuFull + SystemOps; every single corruption of 5 seed traces enumerated by TLC with expected verdict) + CorruptBytes for suite traces; each corrupted trace materialised byte for byte and run through ovniemu -l",
     text="TLC enumerates every truncation offset, adjacent swap, clock regression, header byte alteration, JSON damage, metadata key removal/retyping/alteration, require alteration, MCV substitution, payload-size change and jumbo-flag removal of the seeds and decides reject / ok / unspecified with the reference semantics (12 invariants, 4 refuted negative configurations); ~4000 (quick) corrupted traces are run on the real emulator: expected reject => exit 1 without 'finished ok' and without a signal.",
     note="Where a corruption yields another valid trace the spec says ok/Unspecified; redundant guards in the code make some single-guard mutations verdict-equivalent."),
+
+ "C16": dict(
+    level="model_checking", ref="DESIGN.md §4 C16",
+    technique="TLA+ spec OvniSort (property layer SortedStablePermutation/PrefixUntouched/Idempotent + implementation layer: region automaton, look-back ring, find_destination, stable re-sort, ring rebuild) checked by TLC for refinement over all small streams; exported streams replayed through ovnisort / ovnisort -c / ovniemu and random larger runs validated by OvniSortTrace.tla",
+    text="TLC explores every stream of <=6 events over 3-4 clock values with regions, jumbo events and several ring sizes (0.77M states quick, 9.8M thorough): Impl => Property, tightness of the look-back precondition, idempotence, four refuted negative configurations. ~7400 exported (stream, ring) pairs are materialised byte for byte and the tool's exit status, output order, size, untouched prefix, second run, check mode and emulator verdict compared with TLC's; random streams up to thousands of events are validated in the recorded direction.",
+    note="Stability relies on glibc's merge-sort qsort; outside the preconditions the tool may leave the stream unsorted with exit 0 (Unspecified by the property); a second run may fail when the sorted stream no longer satisfies the look-back (file unchanged)."),
 }
 
 NA_REASON = "check not built yet in this round (planned, see DESIGN.md §4/§8); not claimed until its machinery exists"
